@@ -955,15 +955,19 @@ class History:
             rp.update(output=o, incremental=[got[o][0], got[o][1].decode("latin1")], clean=[want[o][0], want[o][1].decode("latin1")],
                       model=(None if mod is None or o not in mod else [mod[o][0], mod[o][1].decode("latin1")]), ran=ran, differing=diff)
             self.rp = rp
+            # show both contents from shortly before the first byte that differs
+            a, b = got[o][1], want[o][1]
+            i = next((j for j in range(min(len(a), len(b))) if a[j] != b[j]), min(len(a), len(b)))
+            sa, sb = (got[o][0].encode() + b":" + a[max(0, i - 25):i + 45]), (want[o][0].encode() + b":" + b[max(0, i - 25):i + 45])
             stale_dirs = [D for D in self.entry_modified if P.producers(D) and P.producers(D)[0] in reach and P.producers(D)[0] not in ran]
             if stale_dirs:
                 rp.update(directory=stale_dirs[0])
                 raise HistoryFailure("c08-dir-entry-modified", "an entry inside the directory %r, the declared output of command %s, was overwritten "
                                      "(fresh mtime on the entry; the directory's own stat is unchanged): the producer was judged up to date and did not run again, "
                                      "so after the successful build output %r holds %r but a clean build gives %r" %
-                                     (stale_dirs[0], P.producers(stale_dirs[0])[0], o, got[o][1][:60], want[o][1][:60]), True)
+                                     (stale_dirs[0], P.producers(stale_dirs[0])[0], o, sa, sb), True)
             raise HistoryFailure("c08-stale-output", "after a successful incremental build, output %r reachable from target %r holds %r but a "
-                                 "clean build of the same description and sources gives %r" % (o, tname, got[o][1][:60], want[o][1][:60]), True)
+                                 "clean build of the same description and sources gives %r (shown around the first difference, at byte %d)" % (o, tname, sa, sb, i), True)
         # ---- run-log expectations (independent of the model)
         dup = sorted(set(c for c in ran if ran.count(c) > 1))
         bad_not = sorted(c for c in ran if c in must_not)
